@@ -582,7 +582,7 @@ pub fn plan(prop: &str, tier: &str) -> Option<Plan> {
                         s.push(e1(prop, "u32", hk, 0, "mut1+ch0+shape/capall+caphuge+fill", &fl, if hk == H_GOOD { 64 } else { 40 }, 2, 1, prof, 1800.0));
                     }
                     s.push(e1(prop, "u32", H_GOOD, 0, "capall+caphuge", &fl, 600, 1, 0, prof, 900.0));
-                    s.push(e1(prop, "u32", H_GOOD, 0, "cap+caphuge", &fl, 2048, 1, 0, prof, 1800.0));
+                    s.push(e1(prop, "u32", H_GOOD, 0, "cap+caphuge", &fl, 1000, 1, 0, prof, 1800.0));
                     s.push(e1(prop, "u32", H_GOOD, 0, "withcap", &fl, 0, 1, 0, prof, 100.0));
                     s.push(e1(prop, "zst", H_GOOD, 0, "withcap", &fl, 0, 1, 0, prof, 100.0));
                     s.push(e1(prop, "tk", H_GOOD, 0, "withcap", &fl, 0, 1, 0, prof, 100.0));
@@ -595,7 +595,7 @@ pub fn plan(prop: &str, tier: &str) -> Option<Plan> {
                         s.push(x);
                     }
                 }
-                bounds = json!({"E1": "all capacity arguments at every state with <=1 deviation up to N=64 (HGood) / N=40 (HLow, HConst), on the growth path to 600 (all n) and 2048 (boundary menu)", "profiles": "chk and rel"});
+                bounds = json!({"E1": "all capacity arguments at every state with <=1 deviation up to N=64 (HGood) / N=40 (HLow, HConst), on the growth path to 600 (all n) and 1000 (boundary menu)", "profiles": "chk and rel"});
             }
         }
         "C12" => {
